@@ -1,7 +1,7 @@
 (* Lmmm/Layout.v — C05: wf programs compile; the cursor machine running compiled code stays exactly
    on the published layout (cursor home, every access on its cell, nothing outside touched). *)
 From Coq Require Import List ZArith NArith Bool Lia.
-From Mimium Require Import StateTree.Model StateTree.Lemmas Lmmm.Syntax Lmmm.Ref Lmmm.Compile Lmmm.Machine Lmmm.Wf Lmmm.Spec Lmmm.Base.
+From Mimium Require Import StateTree.Model Lmmm.Syntax Lmmm.Ref Lmmm.Compile Lmmm.Machine Lmmm.Wf Lmmm.Spec Lmmm.Base.
 Import ListNotations.
 Local Open Scope N_scope.
 
